@@ -372,6 +372,25 @@ fn classify(c: &Comp, o: Options, via_stack_path: Option<&[u8]>) -> &'static str
             return "dot-component-normalized-away";
         }
     }
+    if o.protect_hfs {
+        // git's next_hfs_char() yields 0 for malformed UTF-8, which is_hfs_dot_generic() takes for the end of the name
+        // (git's decoder also rejects the non-characters U+xFFFE, U+xFFFF and U+FDD0..U+FDEF)
+        let std_valid = match std::str::from_utf8(&c.bytes) {
+            Ok(s) => s,
+            Err(e) => std::str::from_utf8(&c.bytes[..e.valid_up_to()]).unwrap_or(""),
+        };
+        let n = std_valid
+            .char_indices()
+            .find(|(_, ch)| {
+                let cp = *ch as u32;
+                (cp & 0xfffe) == 0xfffe || (0xfdd0..=0xfdef).contains(&cp)
+            })
+            .map(|(i, _)| i)
+            .unwrap_or(std_valid.len());
+        if n > 0 && n < c.bytes.len() && component_refuses(&c.bytes[..n], c.symlink, opts(true, false, false)) {
+            return "hfs-malformed-utf8-ends-name";
+        }
+    }
     if c.bytes.contains(&b'\\')
         && !o.protect_windows
         && o.protect_ntfs
@@ -445,7 +464,7 @@ pub fn main() {
 
     ck.sub(
         "git-arbiter",
-        SubCfg::new(1_500, 40_000).max_len(1400).max_shrink(120),
+        SubCfg::new(5_000, 120_000).max_len(1400).max_shrink(40),
         |t, c| {
             let n = t.range(8, 24);
             let mut batch = Vec::new();
@@ -455,7 +474,8 @@ pub fn main() {
                 if comp.bytes.is_empty() || comp.bytes.len() > 120 || comp.bytes == b"x" || comp.bytes == b"y" {
                     continue;
                 }
-                if batch.iter().any(|b: &Comp| b.bytes == comp.bytes && b.symlink == comp.symlink) {
+                // one mode per name and batch: the refusals are told apart by path
+                if batch.iter().any(|b: &Comp| b.bytes == comp.bytes) {
                     continue;
                 }
                 batch.push(comp);
@@ -494,6 +514,9 @@ pub fn main() {
                 items.push((join(b"x", &comp.bytes), comp.symlink));
                 items.push((join(&join(b"y", &comp.bytes), b"x"), false));
             }
+            // Disagreements of a classified (possibly known) kind do not end the case: the remaining components are still
+            // examined, so that the search continues behind known findings; an unclassified one is reported at once.
+            let mut deferred: Option<(&'static str, String)> = None;
             let mut any_nontrivial = false;
             let mut git_refused_total = 0usize;
             let mut gix_stricter = 0usize;
@@ -522,14 +545,17 @@ pub fn main() {
                         let comp_refuses = component_refuses(&comp.bytes, comp.symlink, o);
                         if !dots {
                             if leaf_shapes_refused && !comp_refuses {
-                                c.fail_sig(
-                                    classify(comp, o, None),
-                                    format!(
-                                        "git refuses [c, c/x, x/c] = {:?} for c = {shown} under {cfg}, but gix_validate::path::component accepts it",
-                                        &r[..3]
-                                    ),
+                                let sig = classify(comp, o, None);
+                                let msg = format!(
+                                    "git refuses [c, c/x, x/c] = {:?} for c = {shown} under {cfg}, but gix_validate::path::component accepts it",
+                                    &r[..3]
                                 );
-                                return;
+                                if sig.is_empty() {
+                                    c.fail(msg);
+                                    return;
+                                }
+                                deferred.get_or_insert((sig, msg));
+                                continue;
                             }
                             if comp_refuses && !any_refused {
                                 gix_stricter += 1;
@@ -538,13 +564,16 @@ pub fn main() {
                             if any_refused && comp.bytes.len() <= 100 {
                                 let (mem, root) = tree_for(comp);
                                 if gix_index::State::from_tree(&root, &mem, o).is_ok() {
-                                    c.fail_sig(
-                                        classify(comp, o, None),
-                                        format!(
-                                            "git refuses [c, c/x, x/c, y/c/x(blob)] = {r:?} for c = {shown} under {cfg}, but gix_index::State::from_tree accepts the tree {{c, x/c, y/c/x}}"
-                                        ),
+                                    let sig = classify(comp, o, None);
+                                    let msg = format!(
+                                        "git refuses [c, c/x, x/c, y/c/x(blob)] = {r:?} for c = {shown} under {cfg}, but gix_index::State::from_tree accepts the tree {{c, x/c, y/c/x}}"
                                     );
-                                    return;
+                                    if sig.is_empty() {
+                                        c.fail(msg);
+                                        return;
+                                    }
+                                    deferred.get_or_insert((sig, msg));
+                                    continue;
                                 }
                             }
                         }
@@ -568,20 +597,26 @@ pub fn main() {
                             let res = stack.at_entry(path.0.as_bstr(), Some(mode), &gix_object::find::Never);
                             if let Ok(platform) = res {
                                 let dest = platform.path().to_owned();
-                                c.fail_sig(
-                                    classify(comp, o, Some(&path.0)),
-                                    format!(
-                                        "git refuses the path {:?} ({}) under {cfg}, but the checkout stack (gix_worktree::Stack::at_entry) accepts it and would write to {:?}",
-                                        show(&path.0),
-                                        if comp.symlink { "symlink" } else { "blob" },
-                                        dest
-                                    ),
+                                let sig = classify(comp, o, Some(&path.0));
+                                let msg = format!(
+                                    "git refuses the path {:?} ({}) under {cfg}, but the checkout stack (gix_worktree::Stack::at_entry) accepts it and would write to {:?}",
+                                    show(&path.0),
+                                    if comp.symlink { "symlink" } else { "blob" },
+                                    dest
                                 );
-                                return;
+                                if sig.is_empty() {
+                                    c.fail(msg);
+                                    return;
+                                }
+                                deferred.get_or_insert((sig, msg));
                             }
                         }
                     }
                 }
+            }
+            if let Some((sig, msg)) = deferred {
+                c.fail_sig(sig, msg);
+                return;
             }
             c.label_if(git_refused_total > 0, "git-refuses-some");
             c.label_if(gix_stricter > 0, "gitoxide-stricter-than-git");
